@@ -6,7 +6,7 @@
    [step_inner]). *)
 From Coq Require Import ZArith List Bool Lia.
 From Model Require Import Bits Word Instr Sim Load.
-From Proofs Require Import IrqProofs.
+From Proofs Require Import SimAccess SimUser IrqProofs IrqCongruence.
 Import ListNotations.
 Open Scope Z_scope.
 
@@ -105,7 +105,7 @@ Theorem C10_rti_inverse : forall e s v p s1 s2,
     (psr_privileged (s_psr s) = true -> s_saved_sp s3 = s_saved_sp s) /\
     (forall k, 0 <= k -> k <> 6 -> rget (s_regs s3) k = rget (s_regs s2) k) /\
     s_mem s3 = s_mem s2 /\ s_instrs s3 = s_instrs s2 /\ s_devs s3 = s_devs s2 /\ s_flags s3 = s_flags s2 /\
-    regs8 (s_regs s3) /\ s_mcr s3 = s_mcr s2 /\ s_ireg s3 = s_ireg s2 /\
+    regs8 (s_regs s3) /\ s_mcr s3 = s_mcr s2 /\ s_ireg s3 = s_ireg s2 /\ s_alloca s3 = s_alloca s2 /\
     rget (s_regs s3) 6 = (if psr_privileged (s_psr s) then w_add (w_sub (entry_sp s) (new_init 2)) (new_init 2) else rget (s_regs s) 6) /\
     s_saved_sp s3 = (if psr_privileged (s_psr s) then s_saved_sp s else w_add (w_sub (entry_sp s) (new_init 2)) (new_init 2)).
 Proof. exact rti_restores. Qed.
@@ -143,6 +143,32 @@ Print Assumptions C10_serviced_once.
 Theorem C10_transparent_partial : forall e s s', Serviced e s s' -> peq s s'.
 Proof. exact serviced_transparent. Qed.
 Print Assumptions C10_transparent_partial.
+
+(* Transparency over whole runs of user code (proofs/IrqCongruence.v: a two-run relational Hoare rule
+   for bind; every non-TRAP instruction is a congruence for "shows the program the same things").
+   [IRun n s s']: n instructions of the interrupted run from s to s' — before each instruction any
+   number of interrupts are serviced ([Svc]: the gate takes the request in a whole [step_inner],
+   the handler meets HandlerOK, its RTI executes), the instruction itself is a [step_inner] with
+   no request pending.  [URun n t t']: the same n instructions fetched and executed with nothing in
+   between.  For a user-mode, non-strict machine ([uok]) executing non-TRAP instructions
+   ([nontrap_at]): the two runs end program-equal — same PC, PSR/CC, all registers incl. the stack
+   pointer, saved SP, every word of user memory, keyboard and display.
+   PARTIAL with respect to the property: TRAP instructions (the OS routines run in supervisor mode
+   on the stack the handlers also use: the congruence there needs "the routine never reads a
+   supervisor word below its stack pointer before writing it") and strict mode are not covered;
+   the harness covers both on the implementation. *)
+Theorem C10_transparent_user_partial : forall n s s', IRun n s s' ->
+  forall t, peq s t -> uok s -> exists t', URun n t t' /\ peq s' t' /\ uok s'.
+Proof. exact user_run_transparent. Qed.
+Print Assumptions C10_transparent_user_partial.
+
+(* one instruction: program-equal user-mode states execute any non-TRAP instruction with the same
+   result and stay program-equal *)
+Theorem C10_user_step_congruence : forall e s t,
+  veq s t -> uok s -> nontrap_at s ->
+  snd (fetch_exec e t) = snd (fetch_exec e s) /\ veq (fst (fetch_exec e s)) (fst (fetch_exec e t)) /\ uok (fst (fetch_exec e s)).
+Proof. exact cong_fetch_exec. Qed.
+Print Assumptions C10_user_step_congruence.
 
 (* the hypotheses are satisfiable: a fresh machine (user mode, priority 0, saved SP x3000) with a
    scripted device requesting vector x80 at priority 4 takes the interrupt *)
